@@ -97,7 +97,19 @@ func (c *caseT) round1(m *member) {
 		A0Signature: m.r1.A0Signature, OneTimeSignature: m.r1.OneTimeSignature}
 	dev := ""
 	if !m.honest && r.Chance(1, 2) {
-		switch r.Intn(5) {
+		switch r.Intn(6) {
+		case 5:
+			// the one-time key registered in its uncompressed SEC1 encoding, with a one-time signature made over exactly those
+			// bytes: the chain accepts it; everybody who later proves something about this key must hash the REGISTERED bytes
+			if pk, err := secp256k1.ParsePubKey(m.r1.OneTimePubKey); err == nil && !m.r1Sent {
+				ku := tss.Point(pk.SerializeUncompressed())
+				if sig, err := tss.SignOneTime(m.id, c.dkgCtx, ku, m.r1.OneTimePrivKey); err == nil {
+					m.r1.OneTimePubKey = ku
+					m.r1.OneTimeSignature = sig
+					info.OneTimePubKey, info.OneTimeSignature = ku, sig
+					dev = "uncompressed-onetime-key"
+				}
+			}
 		case 0:
 			info.CoefficientCommits = info.CoefficientCommits[:len(info.CoefficientCommits)-1]
 			dev = "short-commits"
@@ -408,7 +420,12 @@ func (c *caseT) endBlock() {
 	c.ctx = c.ctx.WithBlockHeight(c.height)
 	g, _ := c.app.TSSKeeper.GetGroup(c.ctx, c.gid)
 	// HandleExpiredGroups walks groups in id order and stops at the first one not yet due
-	reachable := c.app.TSSKeeper.GetLastExpiredGroupID(c.ctx)+1 >= c.gid
+	reachable := true
+	for id := c.app.TSSKeeper.GetLastExpiredGroupID(c.ctx) + 1; id < c.gid; id++ {
+		if og, err := c.app.TSSKeeper.GetGroup(c.ctx, id); err != nil || og.CreatedHeight+c.period > uint64(c.height) {
+			reachable = false // an older group is not due yet: the walk stops before this group
+		}
+	}
 	e := fx.Try(func() error { return tssmod.EndBlocker(c.ctx, c.app.TSSKeeper) })
 	if e != "" {
 		c.tr.Op(fx.M{"op": "endBlock", "height": c.height, "out": fx.M{"panic": true, "err": e}})
@@ -429,7 +446,23 @@ func runCase(app *fx.App, tr *fx.Trace, r *fx.Rng, caseNo int) {
 	c.period = uint64(r.PickInt(3, 6, 30, 30, 100))
 	tp.CreationPeriod = c.period
 	fx.Must(app.TSSKeeper.SetParams(c.ctx, tp))
-	// make earlier groups (if any) irrelevant for expiry order: this is the only group of the branch
+	// sometimes an OLDER group of other members sits in the same store, never gets a message and expires while this group is
+	// in its complaint round (1 to 3 blocks before this group would): its clean-up (HandleExpiredGroups →
+	// DeleteAllDKGInterimData) must not touch this group's round data
+	decoyExpiry := int64(0)
+	if r.Chance(1, 2) {
+		dh := c.height - int64(r.Range(1, 3))
+		if dh >= 1 {
+			var daddrs []sdk.AccAddress
+			for _, a := range tssfx.NewAccounts(int64(caseNo)*13+5, 2) {
+				daddrs = append(daddrs, a.Address)
+			}
+			_, err := app.TSSKeeper.CreateGroup(c.ctx.WithBlockHeight(dh), daddrs, 1, "verif")
+			fx.Must(err)
+			decoyExpiry = dh + int64(c.period)
+			tr.Tag("older-group-expires-during-case")
+		}
+	}
 	accts := tssfx.NewAccounts(int64(caseNo)*13+7, int(c.n))
 	var addrs []sdk.AccAddress
 	for _, a := range accts {
@@ -458,6 +491,13 @@ func runCase(app *fx.App, tr *fx.Trace, r *fx.Rng, caseNo int) {
 	for s := 0; s < steps; s++ {
 		g, _ := app.TSSKeeper.GetGroup(c.ctx, gid)
 		m := c.ms[r.Intn(len(c.ms))]
+		if decoyExpiry > 0 && (g.Status == tsstypes.GROUP_STATUS_ROUND_3 || g.Status == tsstypes.GROUP_STATUS_ROUND_2 && r.Chance(1, 6)) && c.height < decoyExpiry && r.Chance(1, 2) {
+			// time passes until the older group is due
+			c.height = decoyExpiry - 1
+			c.endBlock()
+			decoyExpiry = 0
+			continue
+		}
 		if len(app.TSSKeeper.GetPendingProcessGroups(c.ctx)) > 0 && r.Chance(2, 3) || r.Chance(1, 12) {
 			c.endBlock()
 			continue
